@@ -1,7 +1,10 @@
 use crate::track::TrackStatus;
 use anyhow::Result;
 use std::collections::HashMap;
+#[cfg(not(similari_verif))]
 use std::sync::RwLock;
+#[cfg(similari_verif)]
+use crate::verif::sync::RwLock;
 
 pub trait EpochDb {
     fn epoch_db(&self) -> &Option<RwLock<HashMap<u64, usize>>>;
